@@ -355,6 +355,23 @@ def op_cfdphdr_rt(a):
                        "src": h["src"], "dst": h["dst"], "seq": h["seq"]}, inplace=a.get("via") == "inplace")
         cfglen = conf.header_len()
         o = PduHeader(PduType(h["type"]), SegmentMetadataFlag(h["segmeta"]), h["dlen"], conf)
+        # a sibling header of the peer direction built from ANOTHER configuration record that holds the same ID / sequence
+        # number objects (an application keeps one object per entity); its IDs are then replaced through the documented
+        # setter - replaced, not written into the objects the header under test still uses
+        try:
+            import copy as _c
+            from spacepackets.cfdp.conf import PduConfig
+            conf2 = PduConfig(source_entity_id=conf.source_entity_id, dest_entity_id=conf.dest_entity_id,
+                              transaction_seq_num=conf.transaction_seq_num, trans_mode=conf.trans_mode, file_flag=conf.file_flag,
+                              crc_flag=conf.crc_flag, direction=conf.direction, seg_ctrl=conf.seg_ctrl)
+            sib = PduHeader(PduType(h["type"]), SegmentMetadataFlag(h["segmeta"]), h["dlen"], conf2)
+            sib.pack()
+            w = len(h["src"])
+            sib.set_entity_ids(bf([(x + 17) % 256 for x in h["src"]]), bf([(x + 34) % 256 for x in h["dst"]]))
+            sib.transaction_seq_num = bf([(x + 51) % 256 for x in h["seq"]])
+            sib.pack()
+        except Exception:  # noqa
+            pass
         raw = owned(o.pack)
 
         def rest():
@@ -470,6 +487,9 @@ def proj_ctlv(cls, t):
     return proj_fsresp(t)
 
 
+_HOLDER = {}
+
+
 def _via(cls, raw, via):
     from spacepackets.cfdp.tlv import CfdpTlv, TlvHolder
     from spacepackets.cfdp.tlv.defs import TlvType
@@ -484,7 +504,20 @@ def _via(cls, raw, via):
     if via == "from_tlv":
         res = c.from_tlv(generic)
     else:
-        h = TlvHolder(generic)
+        # ONE holder serves all conversions (an application keeps one per receive path): it held another TLV, converted it,
+        # and is then given the TLV under test through its public attribute
+        h = _HOLDER.get("h")
+        if h is None:
+            h = _HOLDER["h"] = TlvHolder(CfdpTlv.unpack(bytes([6, 2, 0x0E, 0x0E])))
+        for conv in ("to_entity_id", "to_flow_label", "to_fault_handler_override", "to_fs_request", "to_fs_response", "to_msg_to_user"):
+            try:
+                getattr(h, conv)()
+            except Exception:  # noqa
+                pass
+        try:
+            h.tlv = generic
+        except Exception:  # noqa
+            h = TlvHolder(generic)
         res = {"entity": h.to_entity_id, "flow": h.to_flow_label, "fault": h.to_fault_handler_override,
                "fsreq": h.to_fs_request, "fsresp": h.to_fs_response, "msg": h.to_msg_to_user}[cls]()
     # the generic TLV is the caller's object; afterwards it is re-typed through its public setter - the converted object
@@ -616,9 +649,9 @@ def op_pdu_fac(a):
     def run():
         obj, conf, params, _ = mk_pdu(a["kind"], a["cfg"], a["p"])
         raw = bytes(owned(obj.pack))
-        return after_pack(raw, lambda: rest(obj, raw))
+        return after_pack(raw, lambda: rest(obj, raw, conf))
 
-    def rest(obj, raw):
+    def rest(obj, raw, conf):
         from spacepackets.cfdp.pdu.helper import PduFactory
         buf = rxbuf(raw, a["sfx"])
         d = fresh(lambda: PduFactory.from_raw(buf))
@@ -630,6 +663,8 @@ def op_pdu_fac(a):
         buf = rxbuf(raw, a["sfx"])              # (the first buffer was re-used by the probe above)
         dt = PduFactory.pdu_directive_type(buf)
         hdt = h.pdu_directive_type
+        reuse_conf(conf)
+        side_pack("pdu", proj_pdu, obj)
         return {"cls": kind_of(d), "eq": pdu_eq(d, obj), "repack": outcome(lambda: octs(d.pack())),
                 "ptype": int(PduFactory.pdu_type(buf)), "isdir": bool(PduFactory.is_file_directive(buf)),
                 "dtype": -1 if dt is None else int(dt), "hptype": int(h.pdu_type), "hdtype": -1 if hdt is None else int(hdt),
